@@ -67,6 +67,14 @@ class Pool4:
         synth.write_itp(os.path.join(d, 'A_clone.itp'), 'clone', [('K%d' % (i + 1), 'AAA', 1) for i in range(SIZES['A'][0])],
                         [(i, i + 1) for i in range(1, SIZES['A'][0])])
         synth.write_gro(os.path.join(d, 'A_CG.gro'), [(1, 'AAA', an, i + 1, (0.2 * i, 0.1, 0.3)) for i, an in enumerate(self.cg_names['A'])])
+        # one end-resolution coordinate file with a molecule of A and a molecule of B
+        recs, nr = [], 0
+        for rid, sp in ((1, 'A'), (2, 'B')):
+            pos = np.cumsum(rng.normal(size=(len(self.aa_names[sp]), 3)) * 0.08, axis=0) + rid
+            for i, an in enumerate(self.aa_names[sp]):
+                nr += 1
+                recs.append((rid, sp * 3, an, nr, tuple(float('%.3f' % v) for v in pos[i])))
+        synth.write_gro(os.path.join(d, 'AB_AA.gro'), recs)
         with open(os.path.join(d, 'notes.txt'), 'w') as fh:
             fh.write('not a simulation file\n')
 
@@ -94,11 +102,13 @@ class Pool4:
         return {'topCG': os.path.join(d, '%s_CG.itp' % sp), 'topAA': os.path.join(d, '%s_AA.itp' % sp),
                 'coorAA': os.path.join(d, '%s_AA.gro' % sp), 'topOther': os.path.join(d, 'Z_other.itp'),
                 'topClone': os.path.join(d, 'A_clone.itp'), 'coorCG': os.path.join(d, 'A_CG.gro'),
-                'txt': os.path.join(d, 'notes.txt'), 'sys': self.sysfile}[role]
+                'txt': os.path.join(d, 'notes.txt'), 'sys': self.sysfile, 'coorAB': os.path.join(d, 'AB_AA.gro')}[role]
 
     def decode(self, path):
         b = os.path.basename(path)
         sub = os.path.basename(os.path.dirname(path))
+        if b == 'AB_AA.gro' and sub == 'pool':
+            return ['AB', 'coorAB']
         m = re.match(r'(\w)_(CG|AA)\.(itp|gro)$', b)
         if m and sub == 'pool':
             role = {('CG', 'itp'): 'topCG', ('AA', 'itp'): 'topAA', ('AA', 'gro'): 'coorAA', ('CG', 'gro'): 'coorCG'}[(m.group(2), m.group(3))]
@@ -224,7 +234,10 @@ def check(run):
 
     def expect(c, insys):
         have = {tuple(f) for f in c['cands']}
-        disc = sorted(s for s in insys if s not in c['explicit'] and all((s, r) in have for r in ('topCG', 'topAA', 'coorAA')))
+
+        def coords(s):
+            return [f for f in (('%s' % s, 'coorAA'), ('AB', 'coorAB')) if f in have and (f[1] == 'coorAA' or s in ('A', 'B'))]
+        disc = sorted(s for s in insys if s not in c['explicit'] and all((s, r) in have for r in ('topCG', 'topAA')) and coords(s))
         return disc, sorted(set(c['explicit']) | (set(disc) - set(c['exclude'])))
 
     def judge(c, result_or_exc, how, insys=('A', 'B')):
@@ -233,8 +246,13 @@ def check(run):
             return run.violation({'check': 'discover:crash:' + result_or_exc['type'], 'how': how.split(':')[0]},
                                  {'engine': 'cli', 'spec': 'MC_Cli', 'case': c, 'how': how, 'text': result_or_exc['text']})
         dec = decode_result(pool, result_or_exc)
+        have = {tuple(f) for f in c['cands']}
         want = [[s, [s, 'topCG'], [s, 'topAA'], [s, 'coorAA']] for s in disc]
-        if dec != want:
+        # the end coordinates of a species: its own file, or the shared one (either, if both are listed)
+        ok = len(dec) == len(want) and all(d_[:3] == w_[:3] and tuple(d_[3]) in have and
+                                          (d_[3] == [w_[0], 'coorAA'] or (d_[3] == ['AB', 'coorAB'] and w_[0] in ('A', 'B')))
+                                          for d_, w_ in zip(dec, want))
+        if not ok:
             return run.violation({'check': 'discover:assignment_differs_from_specification', 'how': how.split(':')[0]},
                                  {'engine': 'cli', 'spec': 'MC_Cli', 'case': c, 'how': how, 'observed': dec, 'expected': want})
         return False
@@ -295,6 +313,9 @@ def check(run):
             for f in (['Z', 'topOther'], ['A', 'topClone'], ['A', 'coorCG'], ['-', 'txt'], ['-', 'sys']):
                 if r.random() < 0.5:
                     cands.append(f)
+            if r.random() < 0.4:
+                # an ion-pair file serves A and B; their own coordinate files are then often missing
+                cands = [f for f in cands if not (f[1] == 'coorAA' and f[0] in ('A', 'B') and r.random() < 0.7)] + [['AB', 'coorAB']]
         c = {'cands': cands, 'explicit': explicit, 'exclude': []}
         disc, _m = expect(c, present)
         exclude = []
